@@ -3,24 +3,30 @@
 Correspondence: random operation histories (randomise / train / add-unitary / save / save-again / ModelSaver /
 metadata-only save / load / autoload / caller mutates metadata) over several real states of the three kinds,
 several metadata dict objects and several files in ctx.scratch are executed on REAL objects and on the extracted
-model (Store.run_trace); after every step the result kind (ok / ValueError / KeyError / RuntimeError /
-FileNotFoundError / other) and the complete heap (every parameter of every network of every state, unitary
-dictionaries, metadata dict contents, torch.load of every file) are compared.  Tensor / metadata values are
+model (Store.run_trace); after every step "raises vs does not raise" (exception classes are not compared) and the
+complete heap (every parameter of every network of every state, unitary dictionaries, metadata dict contents,
+torch.load of every file) are compared.  EXCEPT after a FAILING load / autoload — the property says nothing about
+loads it does not call compatible — where only metadata and files are compared and the model is restarted from the
+real heap (so an atomic load, or any other after-state of a failed load, never alarms).  "train" is either an
+in-place overwrite or a real fit (optionally with a ModelSaver callback incl. save_initial); save / load are called
+with a str path, a pathlib.Path or a file object.  Tensor / metadata values are
 canonicalised to opaque tokens by content (bytes + shape), object identities to small integers.
 
 Oracle (independent of the model, on the implementation only): after an accepted save, a later load into a
 compatible state / autoload (no write to the file in between) gives torch.equal parameters, same shapes, equal
 unitary dictionary key by key; save leaves the metadata object (identity and deep content) and the state's
 parameters untouched; torch.load of the file holds every metadata key/value, every network's state dict and
-unitary_dict; reserved names raise ValueError and write nothing; a second save with the same objects succeeds
+unitary_dict; reserved names are refused (any exception) and write nothing; a second save with the same objects succeeds
 and writes an equal record; torch.save/load round-trips random tensors bit-identically (trust check)."""
-import os, copy, time
+import os, io, copy, time, pathlib
 import numpy as np
 
 RULE = ("histories of <= 12 (quick) / <= 25 (thorough) operations from a weighted grammar over 4-6 states "
         "(Positive/Complex/DensityMatrix, nv 1..4, nh 1..5 with nh != nv preferred, na 1..3, all biases non-zero "
         "after the initial in-place randomisation, default / custom / user-extended unitary dictionaries), "
-        "4 metadata objects (None, {}, flat, nested+tensor-valued; reserved keys injected by MutateMd), 4 files; "
+        "4 metadata objects (None, {}, flat, nested+tensor-valued; reserved keys injected by MutateMd), 4 files + the "
+        "ModelSaver 'initial' file; train = in-place overwrite | real fit | real fit with ModelSaver callback; "
+        "locations as str / pathlib.Path / file object; "
         "a case is one history; non-trivial := it contains an accepted save with non-empty metadata or a unitary "
         "dictionary, followed by a successful load/autoload of that file")
 ASSUMPTIONS = ["torch.save/torch.load round-trip tensors and plain containers bit-identically (observed on random tensors in every run)",
@@ -102,7 +108,8 @@ class Real:
         self.file_cache = {}  # fid -> normalised content (None if absent)
 
     def path(self, fid):
-        return os.path.join(self.ctx.scratch, "f%d" % fid)
+        # fid 9 is the file ModelSaver(save_initial=True) writes at on_train_start
+        return os.path.join(self.ctx.scratch, "finitial" if fid == 9 else "f%d" % fid)
 
     def reg_state(self, sid, s):
         self.states[sid] = s
@@ -286,7 +293,7 @@ def one_history(ctx, hid, nops):
     rng = ctx.rng
     T = Tables()
     R = Real(ctx, T)
-    for f in range(5):
+    for f in list(range(5)) + [9]:
         try:
             os.remove(R.path(f))
         except OSError:
@@ -309,9 +316,22 @@ def one_history(ctx, hid, nops):
              2: {"cfg": {"lr": 0.25, "layers": [2, 3]}, "t": torch.tensor(rng.normal(size=(2, 2)))}}
     next_sid = nstates
     h0 = R.norm()
-    init_wire = wire_heap(h0, R.next_nid)
     case = {"history": hid, "seed": ctx.seed, "states": desc_states, "ops": []}
-    ops, real_trace = [], []
+    # The history is cut into segments: after a FAILING load / autoload (about whose after-state the property says
+    # nothing) the model is restarted from the real heap, and for that step only "raises vs does not raise" and
+    # the untouched metadata / files are compared.
+    segments = [[wire_heap(h0, R.next_nid), [], []]]
+
+    def emit(op, label, exc, touched=(), malformed=False):
+        ctx.count("op:" + label.split("(")[0].split("[")[0].rstrip("0123456789"))
+        ctx.count("result:%s" % ("ok" if exc is None else type(exc).__name__))
+        case["ops"].append(label)
+        h = R.norm(touched)
+        segments[-1][1].append(op)
+        segments[-1][2].append((exc is not None, h, ("mds", "files") if (malformed and exc is not None) else ("states", "mds", "files"), label))
+        if malformed and exc is not None:
+            ctx.count("resync_after_failed_load")
+            segments.append([wire_heap(h, R.next_nid), [], []])
     saved = {}           # fid -> (snapshot, metadata deep copy) of the last ACCEPTED full save
     nontrivial = False
     md_keys = ["a", "b", "cfg", "t", "rbm_am", "rbm_ph", "unitary_dict"]
@@ -322,17 +342,63 @@ def one_history(ctx, hid, nops):
         fid = int(rng.integers(0, 4))
         mid = [None, 0, 1, 2][int(rng.integers(0, 4))]
         md = None if mid is None else R.mds[mid]
-        touched, exc = [], None
+        touched, exc, malformed, op = [], None, False, None
         if r < 0.10:                                        # reinitialize_parameters
             s.reinitialize_parameters()
             for net in s.networks:                            # new Parameter objects, same network objects
                 pass
             op = [0, sid, [[t for _, _, t in R.net_params(getattr(s, n))] for n in s.networks]]
             label = "randomise(%d)" % sid
-        elif r < 0.22:                                      # training stand-in: in-place update of every parameter
-            randomise_inplace(ctx, s, scale=float(rng.choice([0.5, 2.0])))
-            op = [1, sid, [[t for _, _, t in R.net_params(getattr(s, n))] for n in s.networks]]
-            label = "train(%d)" % sid
+        elif r < 0.22:                                      # training: in-place stand-in, or a real fit (with ModelSaver)
+            sub = rng.random()
+            kind_s = KIND[type(s).__name__]
+            reserved_s = set(s.networks) | ({"unitary_dict"} if hasattr(s, "unitary_dict") else set())
+            if sub < 0.5:
+                randomise_inplace(ctx, s, scale=float(rng.choice([0.5, 2.0])))
+                op = [1, sid, [[t for _, _, t in R.net_params(getattr(s, n))] for n in s.networks]]
+                label = "train(%d)" % sid
+            else:
+                nv_s = int(s.num_visible)
+                data = torch.tensor(rng.integers(0, 2, size=(6, nv_s)), dtype=torch.double)
+                kw = dict(pos_batch_size=3, k=1, lr=0.1)
+                if kind_s > 0:
+                    ud_now = s.unitary_dict if isinstance(s.unitary_dict, dict) else {}
+                    letters = [b for b in ("X", "Y") if b in ud_now] + ["Z"]
+                    kw["input_bases"] = np.array([["Z"] * nv_s] * 3 + [list(rng.choice(letters, size=nv_s)) for _ in range(3)])
+                with_saver = sub >= 0.7 and not (md and (reserved_s & set(md.keys())))
+                ep = int(rng.integers(1, 4))                 # ModelSaver writes f{ep} at the end of epoch ep
+                ocase = dict(case, step=step, op="fit(%d)" % sid)
+                if not with_saver:
+                    okf, _ = ctx.call("fit", ocase, lambda: s.fit(data, epochs=1, **kw))
+                    op = [1, sid, [[t for _, _, t in R.net_params(getattr(s, n))] for n in s.networks]]
+                    label = "fit(%d)" % sid
+                else:
+                    from qucumber.callbacks import CallbackBase
+                    mdarg = [] if mid is None else [mid]
+                    meta = md if (md is None or rng.random() < 0.6) else (lambda nn, e_, _m=md: _m)
+                    ms = ModelSaver(period=1, folder_path=ctx.scratch, file_name="f{}", save_initial=True, metadata=meta)
+                    md_before = copy.deepcopy(md)
+                    flag = bool(md) or hasattr(s, "unitary_dict")
+
+                    class Pre(CallbackBase):                 # runs BEFORE the saver: the heap after training, before the save
+                        def on_epoch_end(self_, nn, e_):
+                            emit([1, sid, [[t for _, _, t in R.net_params(getattr(s, n))] for n in s.networks]], "fit-epoch(%d)" % sid, None)
+
+                    class Post(CallbackBase):                # runs AFTER the saver
+                        def on_train_start(self_, nn):
+                            emit([3, sid, 9, mdarg], "ModelSaver-initial(%d,finitial,md%s)" % (sid, mid), None, [9])
+                            saved[9] = (snapshot(s), copy.deepcopy(md), (sid, mid), step, flag)
+
+                        def on_epoch_end(self_, nn, e_):
+                            emit([3, sid, ep, mdarg], "ModelSaver-in-fit(%d,f%d,md%s)" % (sid, ep, mid), None, [ep])
+                            saved[ep] = (snapshot(s), copy.deepcopy(md), (sid, mid), step, flag)
+                    okf, _ = ctx.call("fit with a ModelSaver callback", ocase,
+                                      lambda: s.fit(data, epochs=ep, starting_epoch=ep, callbacks=[Pre(), ms, Post()], **kw))
+                    ctx.require("ModelSaver during fit leaves the metadata object unchanged", deep_eq(md, md_before), ocase)
+                    ctx.count("fit_with_ModelSaver")
+                    op = None                                # everything was emitted from inside the callbacks
+                    if not okf:
+                        return
         elif r < 0.28:                                      # user adds a unitary
             name = "U%d" % rng.integers(0, 3)
             u = rand_unitary(ctx)
@@ -354,7 +420,17 @@ def one_history(ctx, hid, nops):
                     ms = ModelSaver(period=1, folder_path=ctx.scratch, file_name="f{}", save_initial=False, metadata=meta)
                     ms.on_epoch_end(s, fid)
                 else:
-                    s.save(R.path(fid), md)
+                    form = str(rng.choice(["str", "Path", "file"], p=[0.6, 0.2, 0.2]))
+                    via = "save[%s]" % form
+                    if form == "str":
+                        s.save(R.path(fid), md)
+                    elif form == "Path":
+                        s.save(pathlib.Path(R.path(fid)), md)
+                    else:                                   # a file-like object; committed to disk only if save returned
+                        buf = io.BytesIO()
+                        s.save(buf, md)
+                        with open(R.path(fid), "wb") as fh:
+                            fh.write(buf.getvalue())
             except Exception as e:
                 exc = e
             touched = [fid]
@@ -370,7 +446,7 @@ def one_history(ctx, hid, nops):
             reserved = set(s.networks) | ({"unitary_dict"} if hasattr(s, "unitary_dict") else set())
             clash = bool(md) and bool(reserved & set(md.keys()))
             if clash:
-                ctx.require("reserved metadata key is refused with ValueError", isinstance(exc, ValueError), ocase, repr(exc))
+                ctx.require("reserved metadata key is refused (an exception is raised)", exc is not None, ocase, repr(exc))
                 ctx.require("a refused save writes nothing", R.norm_file(fid) == file_before, ocase)
                 ctx.count("refused_reserved")
             else:
@@ -405,10 +481,18 @@ def one_history(ctx, hid, nops):
                     sid = int(rng.choice(comp))
                     s = R.states[sid]
             try:
-                s.load(R.path(fid))
+                form = str(rng.choice(["str", "Path", "file"], p=[0.6, 0.2, 0.2]))
+                if form == "str":
+                    s.load(R.path(fid))
+                elif form == "Path":
+                    s.load(pathlib.Path(R.path(fid)))
+                else:
+                    with open(R.path(fid), "rb") as fh:
+                        s.load(fh)
             except Exception as e:
                 exc = e
             op = [5, sid, fid]
+            malformed = True
             label = "load(%d,f%d)" % (sid, fid)
             if fid in saved and compatible(saved[fid][0], s):
                 ocase = dict(case, step=step, op=label)
@@ -425,10 +509,12 @@ def one_history(ctx, hid, nops):
                 kind = KIND[saved[fid][0]["cls"]]
             new = None
             try:
-                new = CLS[kind].autoload(R.path(fid), gpu=False)
+                loc = R.path(fid) if rng.random() < 0.7 else pathlib.Path(R.path(fid))
+                new = CLS[kind].autoload(loc, gpu=False)
             except Exception as e:
                 exc = e
             op = [6, kind, fid, next_sid]
+            malformed = True
             label = "autoload(%s,f%d)->%d" % (CLS[kind].__name__, fid, next_sid)
             if fid in saved and KIND[saved[fid][0]["cls"]] == kind:
                 ocase = dict(case, step=step, op=label)
@@ -449,30 +535,32 @@ def one_history(ctx, hid, nops):
             R.mds[mid][k] = v
             op = [7, mid, T.key(k), T.tok(v)]
             label = "md%d[%s]=..." % (mid, k)
-        ctx.count("op:" + label.split("(")[0].split("[")[0].rstrip("0123456789"))
-        ctx.count("result:%d" % err_kind(exc))
-        case["ops"].append(label)
-        ops.append(op)
-        real_trace.append((err_kind(exc), R.norm(touched)))
-    # ---- correspondence with the model, step by step
+        if op is not None:
+            emit(op, label, exc, touched, malformed)
+    # ---- correspondence with the model, step by step (result compared only as "raises" vs "does not raise")
     m = ctx.get_model()
-    out = m.call("store_run", init_wire, ops)
-    for i, ((rk, rh), mo) in enumerate(zip(real_trace, out)):
-        c = dict(case, step=i, op=case["ops"][i])
-        mk = int(mo[0])
-        if not ctx.agree_exact("result kind of step %d" % i, rk, mk, c):
-            break
-        mh = norm_model_heap(mo[1])
-        good = True
-        for part in ("states", "mds", "files"):
-            if rh[part] != mh[part]:
-                diff = [k for k in set(rh[part]) | set(mh[part]) if rh[part].get(k) != mh[part].get(k)]
-                k0 = diff[0]
-                ctx.disagreements.append({"what": "heap after step %d: %s" % (i, part), "case": c,
-                                          "detail": "object %r: impl %r vs model %r" % (k0, rh[part].get(k0), mh[part].get(k0))})
+    i = 0
+    good = True
+    for init_wire, ops, real_trace in segments:
+        if not ops or not good:
+            continue
+        out = m.call("store_run", init_wire, ops)
+        for (rraised, rh, parts, label), mo in zip(real_trace, out):
+            c = dict(case, step=i, op=label)
+            i += 1
+            if not ctx.agree_exact("step %d raises" % (i - 1), rraised, int(mo[0]) != 0, c):
                 good = False
-        if not good:
-            break
+                break
+            mh = norm_model_heap(mo[1])
+            for part in parts:
+                if rh[part] != mh[part]:
+                    diff = [k for k in set(rh[part]) | set(mh[part]) if rh[part].get(k) != mh[part].get(k)]
+                    k0 = diff[0]
+                    ctx.disagreements.append({"what": "heap after step %d: %s" % (i - 1, part), "case": c,
+                                              "detail": "object %r: impl %r vs model %r" % (k0, rh[part].get(k0), mh[part].get(k0))})
+                    good = False
+            if not good:
+                break
     ctx.traces += 1
     ctx.case({"history": hid, "states": desc_states, "ops": case["ops"]}, nontrivial=nontrivial)
 
